@@ -239,7 +239,11 @@ class C07(Prop):
     coq_targets = ["props/C07.vo"]
     props_file = "props/C07.v"
     design_ref = "DESIGN.md §4 C07"
-    level_text = ("Coq theorems for the code with the six proposed repairs (variant `fixed` of coq/model/Deb822Wrap.v), over all well-formed "
+    level_text = ("Coq theorems for the code with the eight repairs (variant `fixed` of coq/model/Deb822Wrap.v: six are in /repo, C07-21 "
+                  "-- an Uploaders piece that starts with '#' stays on its line -- and C07-22 -- a relationship field the relations parser rejects is "
+                  "left as it is instead of a panic -- are proposed, proposed_fixes/C07-2x; until they are in /repo the two classes are known "
+                  "findings c07-uploaders-hash-piece / c07-unparsable-relation-panics, C07_uploaders_hash_piece, "
+                  "C07_control_unparsable_relation_panics / _kept), over all well-formed "
                   "documents (Grammar.wf_doc) and all settings (Spaces(n>=1)/FieldNameLength, either immediate_empty_line, any one-line limit, any "
                   "comparators that depend only on names and values and give consistent answers): C07_holds = no panic; the result is exactly the tree of "
                   "the layout WrapSpec describes (comment lines stay in front of the same field/paragraph, groups sorted stably, fields rebuilt by the "
@@ -272,12 +276,26 @@ class C07(Prop):
                   "reported content; in D every continuation line is indented by the requested width, every line is terminated, and paragraphs are "
                   "separated by exactly one empty line (xsingle_blanks), none at the start or the end; likewise for the control wrappers on "
                   "C07_control_real's domain (C07_control_real_image). "
-                  "PARTIAL (streams + oracle only): formatters (the control formatter included) on error-free documents outside Grammar.wf_doc and "
-                  "formatters with unshaped output; relationship fields outside C13's domain; see docs/cones/C07.md 'What remains'.")
+                  "STANDING of the statements (all vocabulary in coq/model, none in proof files): against an independent specification -- "
+                  "everything on Grammar.v's documents (WrapSpec.v layout functions written from the documentation), the reader's image, and for "
+                  "error-free documents the re-read / indentation / empty-line / termination clauses, the field step (C07_error_free_field vs "
+                  "XWrapSpec.x_ws_field) and the reported content (C07_error_free_content, C07_error_free_paragraph: grouping, the caller's "
+                  "comparators, reported pairs); RESTATING THE MODEL -- C07_tokens_*, C07_error_free's 'the result is d_out' (WrapTokSpec.v part B "
+                  "calls rebuild_value): there the theorem is 'no panic + closed form', and where comment lines end up in a document outside "
+                  "Grammar.v is checked by the oracle only. "
+                  "PARTIAL (streams + oracle only): a second application to the tree re-read from the printed text (t2p); Deb822::wrap_and_sort "
+                  "without a paragraph function (wrap_and_sort_paragraph = None; only the moved-paragraph witness is a theorem); formatters (the "
+                  "control formatter included) on error-free documents outside Grammar.wf_doc and formatters with unshaped output; relationship "
+                  "fields outside C13's domain (unparsable ones are kept field-wise: C07_control_unparsable_relation_kept; a non-standard "
+                  "operator panics in the relations code: known class c07-nonstandard-operator-panics = C12's); the comparator premise "
+                  "cmp_consistent has no transitivity -- the theorems are about the model's stable insertion sort, its agreement with "
+                  "Vec::sort_by needs a total order (assumption); see docs/cones/C07.md 'What remains'.")
     level_note = ("Model: Entry/Paragraph/Deb822::wrap_and_sort, rebuild_value, inject (src/lossless.rs), lex_inline (src/lex.rs), format_field and "
                   "Control/Source/Binary::wrap_and_sort (debian-control/src/lossless/control.rs), the relations branch being C13's RelWrap.ctl_rel. "
-                  "The six repairs of this cone are in /repo (6a001af c25b7d1 a95d981 88b9361 101ca2e 5a3c57b): `./check C07` compares the model of "
-                  "the repaired code (variant `fixed`) with /repo; VERIF_C07_MODEL=shipped (or six 0/1 flags) evaluates the code before the repairs; "
+                  "Six repairs of this cone are in /repo (6a001af c25b7d1 a95d981 88b9361 101ca2e 5a3c57b), two are proposed (C07-21, C07-22): "
+                  "`./check C07` compares the model of the repaired code (variant `fixed`) with /repo -- on /repo 5517d72 the cases of the two proposed "
+                  "repairs fall into their known-finding classes, on a copy with the patches nothing differs; VERIF_C07_MODEL=shipped (or eight 0/1 "
+                  "flags; 11111100 = /repo 5517d72) evaluates other variants; "
                   "VERIF_C07_REL=table makes the control-wrap model take the relations formatter's values from the case instead of C13's model.")
     rule = ("hand-written edge cases (one per clause/defect) + /repo test literals + generated Grammar.doc inhabitants (every layout knob, values "
             "with ',' ';' '#') + exotic error-free texts (CR, blank/comment lines in values, blanks before ':') + control-file documents "
@@ -295,7 +313,8 @@ class C07(Prop):
                "the relations branch of format_field is C13's model RelWrap.ctl_rel (coq/model/RelWrap.v, tied to the code by C13's streams and by control-wrap); the table computed by the harness helper control-fmt-table is used by the oracle only",
                "extraction (ExtrOcamlBasic only), OCaml runner, Rust harness, Python driver/generators/oracle"]
     assumptions = ["inputs are valid UTF-8 (Rust &str)", "field names shorter than 4 GiB (the `as u32` cast of FieldNameLength is not modelled)",
-                   "comparators and formatters passed by the caller return (do not panic) and comparators give consistent answers (Vec::sort_by's contract)",
+                   "comparators and formatters passed by the caller return (do not panic); comparators are total preorders (Vec::sort_by's contract: "
+                   "the theorems need only that a<b and b<a are never both answered, the agreement of the model's stable insertion sort with Vec::sort_by needs transitivity too)",
                    "relationship fields of control files: well-formed fields of C10's grammar in C13's safe domain (no digit run above 2^31-1 in a version)"]
     case_ms = 6000
 
